@@ -63,6 +63,7 @@ AlphaSeq ==
       [] Family = "splice" -> <<"M1{", "}", "{", "N{", "FOR02{", "IF1{", "SPp", "AP1k", "DB">>
       [] Family = "shadowram" -> <<"Lc", "LDc", "C10", "{", "}", "A2", "A1", "La">>
       [] Family = "loopscope" -> <<"FOR02{", "N{", "}", "La", "DLna", "DLa", "DB">>
+      [] Family = "shadowdata" -> <<"C10", "Lc", "Ec5", "DLc", "{", "}", "DB", "N{">>
       [] Family = "tiny"   -> <<"La", "DB", "DLa", "{", "}", "S3">>
 Alphabet == Range(AlphaSeq)
 TokIndex(t) == CHOOSE j \in 1..Len(AlphaSeq) : AlphaSeq[j] = t
